@@ -10,7 +10,7 @@ VARIANT = "plain"
 
 def describe(tier):
     return {
-        "rule": "every ordered pair (A,B) of subsets of a %d-value universe and of the boundary universe %r, through the three "
+        "rule": "operands are passed both as contiguous arrays and as non-contiguous (strided) views; every ordered pair (A,B) of subsets of a %d-value universe and of the boundary universe %r, through the three "
         "merge kernels and the three None-aware wrappers (every None/array/empty form, every copy flag); every (long contiguous run of 8..17(33) elements, optionally with one hole) x (1..2 sparse probe elements) pair in both orders - the shape block-skipping optimisations are written for; every list of "
         "0..k subsets for the multi-way union. A pair case is non-trivial when both operands are non-empty and their ranges "
         "overlap (no shortcut applies); a list case when it has >=2 non-empty arrays. Distinct = distinct (universe, A, B) / list."
@@ -82,6 +82,8 @@ def check_pair(A, B, acc, uname):
                 _wrap(acc, "wrapper:difference", dict(case, l=lname, r=rname, copy=cp), lambda: so.difference(la, rb, copy=cp), want)
     if not (numpy.array_equal(a, a0) and numpy.array_equal(b, b0)):
         acc.violation("kernel:mutated-input", case, "an operand was modified")
+    # the same operands as non-contiguous views
+    check_kernels_only(A, B, acc, uname, layouts=("strided",))
 
 
 def _wrap(acc, site, case, thunk, want):
@@ -114,20 +116,21 @@ def check_many(lst, acc, fam):
         acc.violation("kernel:union_many", case, msg)
 
 
-def check_kernels_only(A, B, acc, uname):
+def check_kernels_only(A, B, acc, uname, layouts=("contiguous", "strided")):
     so = _so()
-    a, b = K.arr(A), K.arr(B)
     sA, sB = set(A), set(B)
-    case = {"u": uname, "A": A, "B": B}
-    for op, fn, want in (("intersect", so.set_intersect_merge_np, sA & sB), ("union", so.set_union_merge_np, sA | sB), ("difference", so.set_difference_merge_np, sA - sB)):
-        try:
-            res = fn(a, b)
-        except Exception as e:  # noqa
-            acc.violation("kernel:" + op, dict(case, op=op), "raised %r" % (e,))
-            continue
-        msg = K.check_result(res, sorted(want))
-        if msg:
-            acc.violation("kernel:" + op, dict(case, op=op), msg)
+    for layout in layouts:
+        a, b = (K.arr(A), K.arr(B)) if layout == "contiguous" else (K.strided(A), K.strided(B))
+        case = {"u": uname, "A": A, "B": B, "layout": layout}
+        for op, fn, want in (("intersect", so.set_intersect_merge_np, sA & sB), ("union", so.set_union_merge_np, sA | sB), ("difference", so.set_difference_merge_np, sA - sB)):
+            try:
+                res = fn(a, b)
+            except Exception as e:  # noqa
+                acc.violation("kernel:" + op, dict(case, op=op), "raised %r" % (e,))
+                continue
+            msg = K.check_result(res, sorted(want))
+            if msg:
+                acc.violation("kernel:" + op, dict(case, op=op), msg)
 
 
 def run_block(family, p, acc):
@@ -163,8 +166,8 @@ def replay(case, site=None):
     acc = Acc(ID, [], stop_at_first=False)
     if "arrays" in case:
         check_many(case["arrays"], acc, case.get("fam"))
-    elif case.get("u") == "runs":
-        check_kernels_only(case["A"], case["B"], acc, "runs")
+    elif case.get("u") == "runs" or case.get("layout") == "strided":
+        check_kernels_only(case["A"], case["B"], acc, case.get("u"))
     else:
         check_pair(case["A"], case["B"], acc, case.get("u"))
     for v in acc.violations:
